@@ -136,7 +136,7 @@ func forestSx(f []*tnode) Sx {
 
 // ---------- implementation observations ----------
 
-func rawSx(rs []asn1struct.Raw) Sx {
+func c13_rawSx(rs []asn1struct.Raw) Sx {
 	l := SL{}
 	for _, r := range rs {
 		hl := len(r.FullBytes) - len(r.Bytes)
@@ -151,7 +151,7 @@ func rawSx(rs []asn1struct.Raw) Sx {
 		if comp == 0 {
 			content = SB(r.Bytes)
 		}
-		l = append(l, SL{I(r.Class), I(r.Tag), I(comp), content, I(len(r.Bytes)), I(hl), rawSx(r.Children)})
+		l = append(l, SL{I(r.Class), I(r.Tag), I(comp), content, I(len(r.Bytes)), I(hl), c13_rawSx(r.Children)})
 	}
 	return l
 }
@@ -162,7 +162,7 @@ func c13Parse(c *Ctx, tag string, data []byte) {
 		if err != nil {
 			return ObsErr()
 		}
-		return ObsOk(rawSx(rs))
+		return ObsOk(c13_rawSx(rs))
 	})
 	c.Emit("parse:"+tag, SL{SB(data)}, impl)
 }
